@@ -582,16 +582,16 @@ func loadVectors() (valid map[int][]pcVector, fail map[int][]pcVector) {
 // ---------------------------------------------------------------------------
 // the case list of one configuration: a pure function of (seed, tier, cfg)
 
-func generate(r *mon.Run, cfg string) []Case {
-	var out []Case
+// (streamed: emit is called once per case, in list order)
+func generate(r *mon.Run, cfg string, emit func(*Case)) {
 	add := func(c Case) {
 		c.Cfg = cfg
 		if c.Kind == "" {
 			c.Kind = "call"
 		}
-		out = append(out, c)
+		emit(&c)
 	}
-	scale := r.Pick(1, 40)
+	scale := r.Pick(1, 120)
 
 	// (a) raw random byte strings as code and as init code
 	{
@@ -647,7 +647,6 @@ func generate(r *mon.Run, cfg string) []Case {
 
 	// charge-wrap seekers last within their shard: each may kill its child
 	genGasWrap(add)
-	return out
 }
 
 func genTruncatedPush(add func(Case)) {
@@ -965,7 +964,7 @@ func genSweeps(r *mon.Run, cfg string, add func(Case)) {
 func genCustom(r *mon.Run, cfg string, add func(Case)) {
 	rng := r.Rand("custom", cfg)
 	g := &gen{rng: rng, cfg: cfg}
-	n := r.Pick(260, 8000)
+	n := r.Pick(260, 20000)
 	for _, op := range customOps {
 		info := opTable[op]
 		for i := 0; i < n; i++ {
@@ -1022,7 +1021,7 @@ func genCustom(r *mon.Run, cfg string, add func(Case)) {
 		}
 	}
 	// AUTH with a valid signature, followed by AUTHCALLs
-	for i := 0; i < r.Pick(60, 1500); i++ {
+	for i := 0; i < r.Pick(60, 4000); i++ {
 		var commit [32]byte
 		rng.Read(commit[:])
 		inv := targetAddr
@@ -1174,7 +1173,7 @@ func genPrecompiles(r *mon.Run, cfg string, add func(Case)) {
 		op := callOps[rng.Intn(4)]
 		add(Case{Fam: "precompile-call", Tag: fmt.Sprintf("pre%02d/%s", pre, opName(op)), Code: forwarder(op, bigU(uint64(pre)), 0), Input: in, Gas: gas})
 		if rng.Intn(3) == 0 {
-			add(Case{Fam: "precompile-call", Tag: fmt.Sprintf("pre%02d/top", pre), To: common.BytesToAddress([]byte{byte(pre)}).GetHexString(), Input: in, Gas: gas,
+			add(Case{Fam: "precompile-call", Tag: fmt.Sprintf("pre%02d/top", pre), To: preAddr(pre).GetHexString(), Input: in, Gas: gas,
 				Value: []string{"", "", "1"}[rng.Intn(3)]})
 		}
 	}
